@@ -210,7 +210,7 @@ func runCase(c *Case) (nontrivial int, err error) {
 			}
 			fpath = idx
 		}
-		crossing := r.BodyLen >= 65499 || sc.BodyLen+len(sc.Head) > 65535 || len(sc.Cuts) > 1 || len(sc.Stderr) > 0 || sc.Burst > 0
+		crossing := r.BodyLen >= 65499 || sc.BodyLen+len(sc.Head) > 65535 || len(sc.Cuts) > 1 || len(sc.Stderr) > 0 || len(sc.StderrLate) > 0 || sc.Burst > 0
 		for _, kv := range r.Header {
 			if len(kv[0]) >= 120 || len(kv[1]) >= 127 {
 				crossing = true
@@ -334,7 +334,7 @@ func runCase(c *Case) (nontrivial int, err error) {
 				return nontrivial, fmt.Errorf("%s: responder header %s: %q missing in the response (got %q)", desc, kv[0], kv[1], resp.Header.Values(kv[0]))
 			}
 		}
-		stderrTexts := append([]string{}, sc.Stderr...)
+		stderrTexts := append(append([]string{}, sc.Stderr...), sc.StderrLate...)
 		if sc.Burst > 0 && sc.BurstAt < recordCount(&sc) {
 			stderrTexts = append(stderrTexts, fmt.Sprintf("%s #%d", sc.BurstText, sc.Burst-1))
 		}
@@ -365,7 +365,7 @@ func runCase(c *Case) (nontrivial int, err error) {
 					r := c.Reqs[verified[(k+g)%len(verified)]]
 					sc := r.Script
 					sc.Salt = 1 + g*4 + k%4
-					sc.Stderr, sc.StderrAt, sc.Burst = nil, nil, 0
+					sc.Stderr, sc.StderrAt, sc.Burst, sc.StderrLate = nil, nil, 0, nil
 					id := fmt.Sprintf("f%d", atomic.AddInt64(&seq, 1))
 					hdr := [][2]string{{"X-Fcgi-Id", id}, {"X-Fcgi-Script", fcgiref.EncodeScript(&sc)}, {"Connection", "close"}}
 					resp, e := srv.Once(addr, "GET", srv.Request("GET", r.Target, "localhost", hdr, nil))
@@ -539,6 +539,10 @@ func genReq(t *rapid.T, lb string) Req {
 	for i := 0; i < ns; i++ {
 		sc.Stderr = append(sc.Stderr, fmt.Sprintf("PHP-Notice-%s-%d-unique-stderr-text", lb, rapid.IntRange(0, 1<<30).Draw(t, fmt.Sprintf("%sse%d", lb, i))))
 		sc.StderrAt = append(sc.StderrAt, rapid.SampledFrom([]int{0, 1, 2, 3, 1000}).Draw(t, fmt.Sprintf("%ssa%d", lb, i)))
+	}
+	if rapid.IntRange(0, 4).Draw(t, lb+"late") == 0 {
+		// a responder that reports trouble after it has closed stdout (shutdown handlers, destructors)
+		sc.StderrLate = []string{fmt.Sprintf("PHP-Late-%s-%d-unique-stderr-text", lb, rapid.IntRange(0, 1<<30).Draw(t, lb+"lse"))}
 	}
 	if rapid.IntRange(0, 5).Draw(t, lb+"burst") == 0 {
 		sc.Burst = rapid.SampledFrom([]int{50, 99, 100, 101, 300, 1000}).Draw(t, lb+"bn")
